@@ -234,7 +234,7 @@ theorem check_err (incoming : Bytes) (s : St) (e : Exc) (h : (check incoming s).
 
 /-- the possible outcomes of one resumption of `read_iter` -/
 inductive RiOut (ri : RI) (s : St) : Step → RI → St → Prop
-  | done : ri.max = some ri.got → ri.got ≠ 0 → RiOut ri s .done ri s
+  | done : ri.max = some ri.got → ri.started = true → RiOut ri s .done ri s
   | expired : remaining ri.timeout ri.t0 s.now = none → RiOut ri s (.err .timeout) ri s
   | ioErr (rem : Option Nat) (rec : ReadRec) (s' : St) (e : Exc) :
       remaining ri.timeout ri.t0 s.now = some rem →
@@ -244,19 +244,19 @@ inductive RiOut (ri : RI) (s : St) : Step → RI → St → Prop
       remaining ri.timeout ri.t0 s.now = some rem →
       IoSpec (ri.maxRead s.chunk) rem s (.ok b, s1) rec →
       (check b (writeStream b s1)).1 = .ok () →
-      RiOut ri s (.chunk b) { ri with got := ri.got + b.length } (check b (writeStream b s1)).2
+      RiOut ri s (.chunk b) { ri with got := ri.got + b.length, started := true } (check b (writeStream b s1)).2
   | death (rem : Option Nat) (rec : ReadRec) (s1 : St) (b : Bytes) (x : Nat) (m : Bytes) :
       remaining ri.timeout ri.t0 s.now = some rem →
       IoSpec (ri.maxRead s.chunk) rem s (.ok b, s1) rec →
       (check b (writeStream b s1)).1 = .error (.death x m) →
-      RiOut ri s (.err (.death x m)) { ri with got := ri.got + b.length } (check b (writeStream b s1)).2
+      RiOut ri s (.err (.death x m)) { ri with got := ri.got + b.length, started := true } (check b (writeStream b s1)).2
 
 theorem riNext_out (ri : RI) (s : St) : RiOut ri s (riNext ri s).1 (riNext ri s).2.1 (riNext ri s).2.2 := by
   unfold riNext
   split
   · rename_i h
-    simp only [Bool.and_eq_true, beq_iff_eq, bne_iff_ne, ne_eq] at h
-    exact .done h.1 h.2
+    simp only [Bool.and_eq_true, beq_iff_eq] at h
+    exact .done h.2 h.1
   · cases hrem : remaining ri.timeout ri.t0 s.now with
     | none => exact .expired hrem
     | some rem =>
